@@ -169,3 +169,71 @@ Proof.
   - apply Forall_app in H3 as [_ H]. inversion H as [|? ? _ H2]; subst.
     eapply Forall_impl; [|exact H2]. cbn. intros e (_ & _ & Hp). apply Hp.
 Qed.
+
+(* ---- calls that are no-ops on a healthy link can be erased from a history ---- *)
+
+Definition is_noop (e : ev) : bool :=
+  match e with Release | Repair | RepairOne _ => true | _ => false end.
+Definition c14_event_ext (e : ev) : Prop := c14_event e \/ is_noop e = true.
+Definition erase (es : list ev) : list ev := filter (fun e => negb (is_noop e)) es.
+Definition all_after (l : link) : Prop := forall m, In m (sent l) -> exists t, mstat m = After t.
+
+Lemma release_msgs_all_after now ms0 :
+  (forall m, In m ms0 -> exists t, mstat m = After t) -> release_msgs now ms0 = ms0.
+Proof.
+  induction ms0 as [|m r IH]; intros H; [reflexivity|]. cbn.
+  destruct (H m (or_introl eq_refl)) as [t Ht]. rewrite Ht.
+  f_equal. apply IH. intros m' Hm'. apply H. now right.
+Qed.
+
+Lemma noop_step g l e :
+  is_noop e = true -> healthy l -> all_after l -> step g l e = (g, l, []).
+Proof.
+  intros Hn [A B] Ha. destruct e; cbn in Hn; try discriminate; cbn [step].
+  - unfold release. rewrite (release_msgs_all_after (lnow l) (sent l) Ha).
+    destruct l; cbn in *; subst; reflexivity.
+  - destruct l; cbn in *; subst; reflexivity.
+  - destruct d, l; cbn in *; subst; reflexivity.
+Qed.
+
+Lemma c14_step_all_after g l e :
+  c14_event e -> healthy l -> all_after l -> all_after (fin (step g l e)).
+Proof.
+  intros Hev Hh Ha. destruct e; cbn [c14_event] in Hev; try contradiction;
+    unfold fin; cbn [step fst snd].
+  - subst do_rand. rewrite (rand_step_good l do_repair (healthy_good l Hh)).
+    intros m Hm. cbn in Hm. apply filter_In in Hm as [Hm _].
+    unfold enqueue in Hm. destruct Hh as [A B].
+    assert (Hst : state_of l d = Healthy) by (destruct d; assumption). rewrite Hst in Hm.
+    cbn in Hm. apply in_app_or in Hm as [Hm|[<-|[]]]; [auto|cbn; eauto].
+  - intros m Hm. cbn in Hm. apply filter_In in Hm as [Hm _]. auto.
+  - destruct to_b; exact Ha.
+  - exact Ha.
+  - exact Ha.
+  - exact Ha.
+Qed.
+
+Lemma c14_noop_erasure_lemma es : forall g l,
+  Forall c14_event_ext es -> healthy l -> all_after l -> run g l es = run g l (erase es).
+Proof.
+  induction es as [|e es IH]; intros g l Hev Hh Ha; [reflexivity|].
+  inversion Hev as [|? ? He Hes]; subst. cbn [erase filter]. fold (erase es).
+  destruct (is_noop e) eqn:En; cbn [negb].
+  - cbn [run]. rewrite (noop_step g l e En Hh Ha). rewrite (IH g l Hes Hh Ha).
+    destruct (run g l (erase es)) as [[g2 l2] o2]. reflexivity.
+  - destruct He as [He|He]; [|congruence]. cbn [run].
+    pose proof (step_healthy g l e He Hh) as H1.
+    pose proof (c14_step_all_after g l e He Hh Ha) as H2.
+    destruct (step g l e) as [[g' l'] o]. unfold fin in H1, H2; cbn [fst snd] in H1, H2.
+    rewrite (IH g' l' Hes H1 H2). reflexivity.
+Qed.
+
+Lemma all_after_init t : all_after (init_at t).
+Proof. intros m []. Qed.
+
+Lemma erase_c14 es : Forall c14_event_ext es -> Forall c14_event (erase es).
+Proof.
+  induction 1 as [|e es He _ IH]; cbn; [constructor|].
+  destruct (is_noop e) eqn:En; cbn; [exact IH|].
+  constructor; [destruct He as [He|He]; [exact He|congruence]|exact IH].
+Qed.
